@@ -190,6 +190,27 @@ def nested_write_ops(g, t, v, n, observe):
     return ops
 
 
+def alike_families(g, n, outer_kinds=('vec', 'list')):
+    """families of sequence types that differ only in a parameter of the element type which the element class does not
+    print (Bitvector[n] / Bitlist[n] / ByteVector[n] / ByteList[n], same-shaped containers): same outer shape, same
+    printed name; yields lists of types to be used one after the other in the same process"""
+    r = g.rng
+    fams = []
+    for _ in range(n):
+        k = r.choice(['Bv', 'bv', 'bl', 'Bl', 'cont'])
+        sizes = r.sample([1, 5, 8, 16, 20, 31, 32, 33, 48, 96, 100, 256, 257, 300, 600, 2048], 3)
+        if r.random() < 0.5:
+            sizes.sort(reverse=True)
+        cnt = r.choice([1, 2, 3, 4, 5])
+        ok = r.choice(outer_kinds)
+        fam = []
+        for sz in sizes:
+            e = ['cont', 'u8', ['Bv', sz]] if k == 'cont' else [k, sz]
+            fam.append([ok, e, cnt])
+        fams.append(fam)
+    return fams
+
+
 def zero_leaves(tr, gi=1, out=None):
     """(gindex, depth) of the zero-subtree summaries (depth >= 1) of a tree S-expression"""
     if out is None:
@@ -976,6 +997,12 @@ class C11(Prop):
                 t, v = self.tv(g, tier)
                 out.append(show(['val', t, v]))
                 out.append(show(['type', t]))
+        # families of types whose element classes print alike, sized one after the other in the same process
+        for fam in alike_families(g, self.n(tier) // 12):
+            for t in fam:
+                out.append(show(['tsize' if g.rng.random() < 0.5 else 'type', t]))
+                if g.rng.random() < 0.5:
+                    out.append(show(['val', t, g.val(t, 4)]))
         # size facts of types with huge lengths / limits (beyond 2**53, where floating point arithmetic rounds)
         r = g.rng
         for _ in range(self.n(tier) // 8):
@@ -1041,6 +1068,15 @@ class C12(Prop):
             out.append(show(['type', t]))
             if g.rng.random() < 0.3:
                 out.append(show(['val', t, g.zero(t)]))
+        # the default of T requested AFTER sequences of T holding non-default data were serialised / iterated / exported
+        r = g.rng
+        for _ in range(self.n(tier) // 10):
+            e = g.ty(r.choice([1, 2]), composite_only=True)
+            seq = r.choice([['vec', e, 3], ['list', e, 4], ['cont', ['list', e, 3], e]])
+            out.append(show(['type', e]))
+            out.append(show(['val', seq, g.max_val(seq) or g.val(seq, 6)]))
+            out.append(show(['type', e]))
+            out.append(show(['type', seq]))
         # families of types that differ only in a parameter of an inner type (same outer shape, same printed name
         # of the element class), defaulted one after the other in the same process
         r = g.rng
@@ -1177,6 +1213,21 @@ class C13(Prop):
             if op in ('mul', 'add') and r.random() < 0.4:
                 x, y = y, x
             out.append(show(['uop', op, x[0], x[1], y[0], y[1]]))
+        for _ in range(self.n(tier) // 6):
+            w = r.choice(W)
+            bits = 8 * w
+            a = self.operand_val(g, w) if r.random() < 0.5 else r.choice([0, 1, 2, 3, 7, 200])
+            e = r.choice([0, 1, 2, 3, 5, 6, 8, 17])
+            m = r.choice([1, 2, 5, 7, 255, 256, 257, 1000, (1 << bits) - 1, 1 << bits, (1 << bits) + 1, 1 << (bits + 3), -1, -5, -(1 << bits), 0,
+                          r.randint(1, 1 << (bits + 1))])
+            out.append(show(['upow3', w, a, e, m]))
+        for _ in range(self.n(tier) // 6):
+            wx, wy = r.choice(W), r.choice(W)
+            x = self.operand_val(g, wx)
+            y = r.choice([0, 1, 4, 7, 8, 8 * wx - 1, 8 * wx, 8 * wx + 1, 255])
+            if y >= (1 << (8 * wy)):
+                y = (1 << (8 * wy)) - 1
+            out.append(show(['urefl', r.choice(['lshift', 'rshift']), wx, x, wy, y]))
         if tier == 'thorough':
             # exhaustive for width 8: every operand pair for the coercing operators (uint8 x uint8 and
             # uint8 x plain int), every shift amount 0..9, every exponent 0..8
@@ -1198,7 +1249,7 @@ class C13(Prop):
         return True
 
     def compare(self, case, py, mo, stats):
-        bump(stats, 'ops', case[1] if case[0] == 'uop' else case[0])
+        bump(stats, 'ops', case[1] if case[0] in ('uop', 'urefl') else case[0])
         bump(stats, 'errs', 'err' if mo.get('r') == 'err' else 'ok')
         if py.get('p.r') == 'badoperand':
             bump(stats, 'errs', 'skipped:operand-not-constructible')
@@ -1330,7 +1381,7 @@ class C15(ValProp):
         if py.get('p.ctor') != 'ok':
             return [F('prop', 'ctor', py.get('p.ctor'), 'valid value must be constructible')]
         v = show(case[2])
-        for route in ('index', 'iter', 'roiter', 'slice', 'zip'):
+        for route in ('index', 'iter', 'roiter', 'slice', 'zip', 'reiter'):
             if py.get('p.read.' + route) != v:
                 out.append(F('prop', 'read via ' + route, py.get('p.read.' + route), v))
         t = case[1]
@@ -1565,6 +1616,10 @@ class C18(Prop):
                 ws = [['w', r.randint(1, (1 << r.randint(1, depth)) - 1), r.choice([0, 0, 1]), g.tree(r.choice([0, 0, 1]), 0.3)]
                       for _ in range(r.choice([1, 1, 2, 4]))]
                 out.append(show(['tree', a, ['diffw'] + ws, ['leaves']]))
+                # two filled trees (every position holds the same pair of node objects), whole and in part
+                fb = ['F', d1, r.choice([['L', g.chunk().hex()], ['Z', 0], bottom])]
+                out.append(show(['tree', ['F', d1, bottom], ['diff', fb], ['graft', fb], ['leaves']]))
+                out.append(show(['tree', ['P', ['F', d1, bottom], ['F', d1, bottom]], ['diff', ['P', fb, ['F', d1, bottom]]], ['graft', ['P', fb, fb]], ['diff', ['P', fb, fb]]]))
             if r.random() < 0.3:
                 tr = g.tree(r.choice([2, 3, 5]), 0.3)
                 out.append(show(['tree', tr, ['leaves'], ['diff', g.tree_write(tr)], ['graft', g.tree_write(tr)],
